@@ -1,6 +1,32 @@
-"""Harness build configurations (cargo features of the harness forward to fast-tlsh's)."""
+"""Harness build configurations (cargo features of the harness forward to fast-tlsh's) and the
+model flags (Model/Dispatch.v cfg_of_flags) that mirror the cfg_if branches each one compiles.
+
+flags: 1 strict-parser, 2 unsafe, 3 no debug assertions/overflow checks (release), 4 whole-table
+length search, 10/11/12 hex decode half/quarter/min table, 13/14 hex encode half/min table,
+15 simd parse hex, 16 simd convert hex, 17 low-memory buckets, 18 pearson double table,
+19 dist-length table, 20/21 dist-qratios table / double table, 30.. body backend, 40.. aggregation backend
+"""
 import core
 
-core.register_config("default", ["--features", "tlsh-default"], "", "dev")
+CONFIGS = {}
+
+
+def reg(name, features, rustflags="", profile="dev", flags=()):
+    core.register_config(name, features, rustflags, profile)
+    CONFIGS[name] = {"features": features, "rustflags": rustflags, "profile": profile, "flags": list(flags)}
+
+
+def F(*names):
+    return ["--features", ",".join(names)] if names else []
+
+
+# default build of fast-tlsh: std, easy-functions, opt-default (length table, qratios double table,
+# pearson double table), simd (all four opt-simd-*), detect-features
+reg("default", F("tlsh-default"), flags=[15, 16, 18, 19, 21])
+reg("strict", F("tlsh-default", "f-strict-parser"), flags=[1, 15, 16, 18, 19, 21])
 
 SETUP_CONFIGS = ["default"]
+
+
+def flags(name):
+    return CONFIGS[name]["flags"]
